@@ -496,6 +496,19 @@ pub fn run(tkind: TKind, depth: usize, nb_only: bool) {
     let offered = if nb_only { feats[choose(2, "offered features")] } else { feats[choose(feats.len(), "offered features")] };
     let mut cfg = Kind::Blk.default_config();
     cfg[0..8].copy_from_slice(&0x1_0000_0008u64.to_le_bytes());
+    // Every optional field of the configuration space holds a value that would change the
+    // driver's behaviour if it were (wrongly) honoured without its feature having been negotiated:
+    // size_max 1, seg_max 1, a geometry, a 4096-byte block size, topology, 4 queues, discard limits.
+    cfg[8..12].copy_from_slice(&1u32.to_le_bytes());
+    cfg[12..16].copy_from_slice(&1u32.to_le_bytes());
+    cfg[16..20].copy_from_slice(&[7, 0, 3, 9]);
+    cfg[20..24].copy_from_slice(&4096u32.to_le_bytes());
+    cfg[24..32].copy_from_slice(&[3, 1, 8, 0, 64, 0, 0, 0]);
+    cfg[32] = 1;
+    cfg[34..36].copy_from_slice(&4u16.to_le_bytes());
+    for (i, b) in cfg[36..60].iter_mut().enumerate() {
+        *b = 1 + i as u8;
+    }
     let w = DWorld::new(Kind::Blk, tkind, offered, cfg);
     w.with_transport(V { depth, offered, nb_only, sweep: false });
     mmio::set_handler(None);
